@@ -351,6 +351,8 @@ def rule_file1_truth(prog, rep, tier, entry="conformance.ground_truth", truth_pa
             if tgt is not None and depth < 3:
                 amap = call_arg_map(node, tgt)
                 tp = {p for p, a in amap.items() if names_in(a) & truth_names}
+                if tgt.parent_fn is fi:
+                    tp |= truth_names  # a closure reads the truth file's name from the enclosing scope
                 if tp:
                     inner = unguarded(tgt, tp, depth + 1)
                     if not inner:
@@ -674,13 +676,13 @@ def rule_file3(prog, rep, tier, armed=("emit.file",), informational=("gen.gen",)
             for s in w.body:
                 ok = (isinstance(s, ast.Expr) and isinstance(s.value, ast.Call) and isinstance(s.value.func, ast.Attribute)
                       and isinstance(s.value.func.value, ast.Name) and s.value.func.value.id == fvar and s.value.func.attr == "write"
-                      and len(s.value.args) == 1 and isinstance(s.value.args[0], (ast.Name, ast.Constant)))
-                if ok and isinstance(s.value.args[0], ast.Name):
-                    nm = s.value.args[0].id
-                    # every assignment to nm precedes the with statement
-                    for a in ast.walk(fi.node):
-                        if isinstance(a, ast.Name) and a.id == nm and isinstance(a.ctx, ast.Store) and order_key(a) >= order_key(w):
-                            ok = False
+                      and len(s.value.args) == 1 and _is_plain_concatenation(s.value.args[0]))
+                if ok:
+                    for nm in names_in(s.value.args[0]):
+                        # every assignment to nm precedes the with statement
+                        for a in ast.walk(fi.node):
+                            if isinstance(a, ast.Name) and a.id == nm and isinstance(a.ctx, ast.Store) and order_key(a) >= order_key(w):
+                                ok = False
                 if not ok:
                     bad.append(s)
             if bad and q in armed:
@@ -820,6 +822,19 @@ def rule_file5(prog, rep, tier, anchor="emit.file"):
                             unconditional = not gs
                             if unconditional or (gnames & read_names) or any(_guard_reads_path(prog, t, it.context_expr) for t, p in gs):
                                 good = True
+        if not good:
+            # the separator is chosen by an expression: some alternative begins with a newline, and which alternative is written
+            # depends on what the same path holds (data read from it, or a helper that reads it)
+            read_names = _names_read_from_path(prog, fi, it.context_expr) | old_content
+            for wx in written:
+                for kind_, gs in _prefix_alternatives(prog, fi, wx, w):
+                    if kind_ != "nl":
+                        continue
+                    gnames = set()
+                    for t, p in gs:
+                        gnames |= names_in(t)
+                    if not gs or (gnames & read_names) or any(_guard_reads_path(prog, t, it.context_expr) for t, p in gs):
+                        good = True
         late = None
         if good:
             # FILE-5b: the prefix must be applied to the final text: no later re-assignment of the written name (e.g. a
@@ -892,6 +907,47 @@ def _guard_reads_path(prog, test, open_call):
                             if isinstance(oc, ast.Call) and is_open(prog, oc) and open_mode(prog, oc)[0] == "read" and oc.args and isinstance(oc.args[0], ast.Name) and oc.args[0].id == pn:
                                 return True
     return False
+
+
+def _is_plain_concatenation(e):
+    """a name, a constant, or strings put end to end (`a + b`, f"{a}{b}"): nothing that renders or formats, nothing that can fail on a str"""
+    if isinstance(e, (ast.Name, ast.Constant)):
+        return True
+    if isinstance(e, ast.BinOp) and isinstance(e.op, ast.Add):
+        return _is_plain_concatenation(e.left) and _is_plain_concatenation(e.right)
+    if isinstance(e, ast.JoinedStr):
+        return all(isinstance(v, ast.Constant) or (isinstance(v, ast.FormattedValue) and isinstance(v.value, ast.Name) and v.format_spec is None and v.conversion == -1)
+                   for v in e.values)
+    return False
+
+
+def _prefix_alternatives(prog, fi, e, before, seen=()):
+    """How the written text may begin: list of (kind, guards), kind in 'nl' (a newline), 'empty' (nothing), 'other';
+    guards = the (test, polarity) pairs under which that alternative is the one written.  Follows `a + b` (an empty
+    first operand defers to the second), conditional expressions and the definitions of local names that precede `before`."""
+    if isinstance(e, ast.Constant) and isinstance(e.value, str):
+        return [("nl" if e.value.startswith("\n") else "empty" if e.value == "" else "other", [])]
+    if isinstance(e, ast.BinOp) and isinstance(e.op, ast.Add):
+        out = []
+        for k, g in _prefix_alternatives(prog, fi, e.left, before, seen):
+            if k == "empty":
+                out += [(k2, g + g2) for k2, g2 in _prefix_alternatives(prog, fi, e.right, before, seen)]
+            else:
+                out.append((k, g))
+        return out
+    if isinstance(e, ast.IfExp):
+        return [(k, [(e.test, True)] + g) for k, g in _prefix_alternatives(prog, fi, e.body, before, seen)] + \
+               [(k, [(e.test, False)] + g) for k, g in _prefix_alternatives(prog, fi, e.orelse, before, seen)]
+    if isinstance(e, ast.Name) and e.id not in seen:
+        out = []
+        for s in ast.walk(fi.node):
+            if isinstance(s, ast.Assign) and any(isinstance(t, ast.Name) and t.id == e.id for t in s.targets) and order_key(s) < order_key(before) \
+                    and e.id not in names_in(s.value):
+                out += [(k, list(expr_guards(s, stop=fi.node)) + g) for k, g in _prefix_alternatives(prog, fi, s.value, before, seen + (e.id,))]
+        return out or [("other", [])]
+    if _starts_with_newline(e):
+        return [("nl", [])]
+    return [("other", [])]
 
 
 def _starts_with_newline(e):
